@@ -670,6 +670,20 @@ def corpus():
                                                                   {'key': 'm11', 'processes': {}}]}}},
            ops=['divide']),
     ]))
+    # F57: the mother's steps have a flow; a daughter that brings her own processes (or steps) and no flow does not
+    # get the mother's flow reported for her, the daughter that names nothing inherits it
+    fsteps = {'agents': {'m': {'S1': PD('S1', True, {'g': {'v': {'_default': 4}}}),
+                               'S2': PD('S2', True, {'g': {'v': {'_default': 4}}})}}}
+    fflow = {'agents': {'m': {'S1': [], 'S2': [('S1',)]}}}
+    ftopo = {'agents': {'m': {'CP': {'g': ('inner',), 'out': ('..',)}, 'S1': {'g': ('inner',)},
+                              'S2': {'g': ('inner',)}}}}
+    out.append(_case(procs, ftopo, {'agents': {'m': {'inner': {'v': 9, 'w': 8}}}}, [
+        _u({'agents': {'_divide': {'mother': 'm', 'daughters': [
+            {'key': 'm0', 'processes': {'Q': PD('Q', False, {'g': {'v': {'_default': 1}}})},
+             'steps': {'D': PD('D', True, {'g': {'v': {'_default': 1}}})},
+             'topology': {'Q': {'g': ('inner',)}, 'D': {'g': ('inner',)}}},
+            {'key': 'm1'}]}}}, ops=['divide']),
+    ], steps=fsteps, flow=fflow))
     # _generate of a nested compartment with a step and flow, ports reaching up
     gen = {'key': 'new', 'processes': {'in': {'GP': PD('GP', False, {'a': {'x': {'_default': 2}},
                                                                       'up': {'*': {'m': {'_default': 1}}}})}},
